@@ -273,7 +273,7 @@ def f1(rep, src):
         "Gt/GtEq/Lt/LtEq: the greater operand's column is replaced only by greatest(l,r) ∩ image(it), the smaller one's only by least(l,r) ∩ image(it) (operand order per variant); "
         "Eq: a column is replaced only by types built from image(l), image(r) with ∩; InList: the column is replaced by list-type ∩ its own type; "
         "any other variant and the default arm return the input unchanged; every error fallback is the unfiltered type",
-        floor=9,
+        floor=8,
         necessary="each arm is the place where a sound operator has an unsound twin (∩ for ∪, least for greatest, swapped operands, emptying default): the twin drops rows that satisfy the predicate",
     )
     fn = src.one_fn(name="filter_by_function", file=EXPR, self_ty="DataType")
